@@ -63,7 +63,9 @@ func WaitRecv(ch interface{}) {
 		runtime.Goexit()
 	}
 	c := CR(ch)
-	s.point("chan recv", s.chanObj(c.ch), func() bool { return s.ready(c) })
+	o := s.chanObj(c.ch)
+	s.point("chan recv", o, func() bool { return s.ready(c) })
+	s.acq(o)
 }
 
 // WaitSend is placed before a send statement.
@@ -76,7 +78,9 @@ func WaitSend(ch interface{}) {
 		runtime.Goexit()
 	}
 	c := CS(ch)
-	s.point("chan send", s.chanObj(c.ch), func() bool { return s.ready(c) })
+	o := s.chanObj(c.ch)
+	s.rel(o) // what the sender has done so far happens before whoever receives the value
+	s.point("chan send", o, func() bool { return s.ready(c) })
 }
 
 // Select waits until one of the cases can proceed (or returns -1 at once when hasDefault and
@@ -107,6 +111,13 @@ func Select(hasDefault bool, cases ...Case) int {
 			break
 		}
 	}
+	if s.cfg.MapRaces {
+		for _, c := range cases {
+			if c.send {
+				s.rel(s.chanObj(c.ch))
+			}
+		}
+	}
 	if hasDefault {
 		s.point("select(default)", o, nil)
 	} else {
@@ -116,6 +127,9 @@ func Select(hasDefault bool, cases ...Case) int {
 		return -1
 	}
 	i := rdy[Choose(KSched, len(rdy))]
+	if !cases[i].send {
+		s.acq(s.chanObj(cases[i].ch))
+	}
 	return i
 }
 
@@ -124,6 +138,7 @@ func Close(ch interface{}) {
 	v := reflect.ValueOf(ch)
 	if s := S; s != nil && !reaping {
 		s.closed[v.Pointer()] = true
+		s.rel(s.chanObj(v))
 	}
 	v.Close()
 }
